@@ -34,7 +34,8 @@ DATA = os.path.join(core.REPO, "tests", "data")
 BIN_SAMPLES = ["tiny", "mtxex.dll", "elf_with_imports", "0ca09bde7602769120fadc4f7a4147347a7a97271370583586c9e587fd396171",
                "tiny-idata-5200", "xor.out", "base64", "weird_rich", "tiny.notes", "6c2abf4b80a87e63eee2996e5cea8f004d49ec0c1806080fa72e960529cba14c"]
 WORDS = ["alpha", "bravo", "charlie", "delta", "echo", "foxtrot", "golf", "hotel", "india", "juliet"]
-RUN_TIMEOUT = 60          # a normal run takes well under 2 s; only a deadlocked binary gets here
+WORK = "w%d" % os.getpid()      # per-process work area: concurrent runs of this check must not share trees / rule files
+RUN_TIMEOUT = 120          # a normal run takes well under 2 s; only a deadlocked binary gets here
 HANG = {"n": 0}           # after the first hang the remaining runs get a short leash, after 3 the thread scenarios stop
 
 
@@ -42,7 +43,7 @@ HANG = {"n": 0}           # after the first hang the remaining runs get a short 
 
 def build_tree(seed, quick=True):
     """Deterministic directory tree for `seed` under out/C18/trees/t<seed>. Returns its path."""
-    root = os.path.join(core.OUT, PID, "trees", "t%d" % seed)
+    root = os.path.join(core.OUT, PID, WORK, "trees", "t%d" % seed)
     if os.path.exists(root):
         shutil.rmtree(root)
     os.makedirs(root)
@@ -295,7 +296,7 @@ class Cli:
             self.stats["scenarios_skipped_after_hangs"] += 1
             return
         tree = build_tree_cached(sc["tree"], self.tier == "quick")
-        rdir = os.path.join(core.OUT, PID, "rules")
+        rdir = os.path.join(core.OUT, PID, WORK, "rules")
         os.makedirs(rdir, exist_ok=True)
         rule_args = []
         for i, rf in enumerate(sc["rules"]):
@@ -426,7 +427,7 @@ class Cli:
     # ---- compiled vs source
     def compiled_scenario(self, sc):
         tree = build_tree_cached(sc["tree"], self.tier == "quick")
-        rdir = os.path.join(core.OUT, PID, "rules")
+        rdir = os.path.join(core.OUT, PID, WORK, "rules")
         os.makedirs(rdir, exist_ok=True)
         src = os.path.join(rdir, "c%s.yar" % sc["id"])
         binp = os.path.join(rdir, "c%s.yarc" % sc["id"])
@@ -482,7 +483,7 @@ class Cli:
     # ---- exit status scenarios
     def exit_scenarios(self, sc):
         tree = build_tree_cached(sc["tree"], self.tier == "quick")
-        rdir = os.path.join(core.OUT, PID, "rules")
+        rdir = os.path.join(core.OUT, PID, WORK, "rules")
         os.makedirs(rdir, exist_ok=True)
         good = os.path.join(rdir, "e%s_good.yar" % sc["id"])
         bad = os.path.join(rdir, "e%s_bad.yar" % sc["id"])
@@ -496,7 +497,7 @@ class Cli:
         run_cmd([self.b["yarac"], good, comp])
         files = walk_like_scan_dir(tree, False)
         f0 = files[0]
-        small = os.path.join(core.OUT, PID, "trees", "small%s" % sc["id"])
+        small = os.path.join(core.OUT, PID, WORK, "trees", "small%s" % sc["id"])
         shutil.rmtree(small, ignore_errors=True)
         os.makedirs(small)
         for i in range(5):
@@ -859,4 +860,5 @@ def run(tier, replay=None):
         "thread counts 1..YR_MAX_THREADS (-p 0 or negative creates no consumer: the walker then blocks after MAX_QUEUED_FILES files until the timeout)",
         "per-file single-threaded invocations of the same binary are the reference for a file's output; -l is checked as sub-multiset + lower bound only",
         "stdout is a pipe (fully buffered); each printf call is atomic (stdio lock)"]
+    shutil.rmtree(os.path.join(core.OUT, PID, WORK), ignore_errors=True)
     return chk.finish("proof")
